@@ -374,7 +374,7 @@ PLANS['C14'] = dict(
     rule='Mode B: a scheduling adversary lets try-lock-only bargers re-take the mutex whenever the victim has been woken and before it runs; Mode A: the victim sleeps 300 us after every wake-up. '
          'distinct = hash of (mix, bargers, schedule / sleeps per acquisition); non-trivial = the victim slept at least once inside a lock call.',
     groups=[
-        G('starve', 'c-plain', 'B', 8, 150, thorough=4000, strategy='rw'),
+        G('starve', 'c-plain', 'B', 14, 500, thorough=6000, strategy='rw'),
         G('starve', 'c-plain', 'A', 8, 12, thorough=300),
         G('starve', 'cpp-plain', 'B', 2, 100, thorough=2000, strategy='rw'),
     ],
@@ -424,8 +424,8 @@ def waitn_owners(w, home):
 PLANS['C11'] = dict(
     rule=RULE_B + RULE_A + 'non-trivial = at least one nsync_wait_n call of the execution slept.',
     groups=[
-        G('waitn', 'c-asan', 'B', 8, 2500, owners=waitn_owners),
-        G('waitn', 'c-plain', 'B', 4, 3000, owners=waitn_owners),
+        G('waitn', 'c-asan', 'B', 8, 5000, thorough=50000, owners=waitn_owners),
+        G('waitn', 'c-plain', 'B', 6, 8000, thorough=60000, owners=waitn_owners),
         G('waitn', 'c-asan', 'A', 4, 800, thorough=20000, owners=waitn_owners),
         G('mu_mix', 'c-asan', 'B', 2, 1000, **MU),
     ],
